@@ -23,6 +23,13 @@ C16.setattr_param_name and C16.aliasing): attributes named like the parameters o
 new_attributes, var_name) written with ``DOMAIN.name.attr = v`` / state.setattr, and a script that changes, in
 place, a list/dict attribute value it has read (``mut``), which must leave the state machine and earlier snapshots
 alone.
+
+Bindings that change (``dyn``, 30% of the runs): the operations of a writer sit in a ``for`` loop of 1-3 rounds, so
+the very same statements are evaluated again, and the Python variable whose name equals a state domain is bound, bound
+to another object and deleted WHILE the writers run: the global one (``light``) through two helper functions any writer
+may call (another task changes the binding between two evaluations of a statement), the local one (``switch``) by
+plain assignment / ``del`` inside the writer.  Whether ``light.l3`` / ``switch.k4`` is the attribute of the Python
+object or the state variable is decided by the oracle from the binding at the instant of each evaluation.
 """
 
 from __future__ import annotations
@@ -44,7 +51,11 @@ RULE = (
     "state.getattr / in-place change of a list/dict attribute value that was read (steer coin, 25% of runs) over 2-3 "
     "entities x 2 attributes + 2 shadowed names, values str/int/float/bool/None/list/dict; in 35% of the runs 1-2 "
     "additional REAL attributes named like the virtual fields (initial, external, and written from script), in 20% "
-    "(steer coin) attributes named like the parameters of state.set; "
+    "(steer coin) attributes named like the parameters of state.set; in 30% of the runs (dyn) the writers' operations "
+    "are the body of a loop of 1-3 rounds (same statements evaluated again) and the global / local Python variable named "
+    "like a state domain is bound, re-bound and deleted by the writers themselves between those evaluations (global: by "
+    "any writer, through helper functions; local: in the writer), with plain read / assign / del / attribute read / "
+    "attribute assign by dotted name on those names; "
     "optional native services of the same names, optional @state_trigger on the busiest names; "
     "an external writer and stalls on the virtual clock; writer start and per-operation timing: same pass, few "
     "passes, 0.25 s grid); distinct = scenario digest; non-trivial = at least 2 script writes that changed the "
@@ -81,7 +92,14 @@ ASSUMPTIONS = [
     "names with other than 1-2 dots, entity ids that HA would reject and states longer than 255 characters are "
     "not generated",
     "attribute reads/writes by dotted name on a name that collides with a service, and anything but plain "
-    "read/assign/del through a shadowing Python variable, are not generated (documentation is silent)",
+    "read/assign/del through a shadowing Python variable, are not generated (documentation is silent); in runs with "
+    "changing bindings `NAME.x.attr` / `NAME.x.attr = v` are generated too: while NAME is bound they are plain Python on "
+    "the value of NAME.x (always a str/int/float/bool/None/list/dict here, so AttributeError and no write)",
+    "precedence is decided at every evaluation from the bindings of that instant: a global that was deleted is no "
+    "variable any more (the state / service name applies again); a name that is LOCAL to the function (assigned "
+    "somewhere in it) but not bound at the moment may resolve to the state variable or raise NameError / "
+    "UnboundLocalError without effect (Python would raise, the documentation is silent): both accepted; `del` of a "
+    "variable that is not bound may raise or not",
 ]
 TIERS = {
     "quick": {"runs": 2400, "chunk": 75, "max_ops": 30},
@@ -93,6 +111,9 @@ REACH_PROBES = [
     "reported_only_write", "missing_attr_read", "ext_write_between_script_ops", "kw_merge_keeps_other",
     "omitted_value_kept", "same_pass_two_writers", "eq_but_other_type_attr",
     "virtual_named_attr_read", "virtual_named_attr_written", "attr_named_like_set_param", "read_value_mutated_in_place",
+    "stmt_reevaluated_after_bind", "stmt_reevaluated_after_unbind", "stmt_reevaluated_after_rebind",
+    "stmt_reevaluated_same_binding", "global_binding_changed_by_other_task", "state_name_after_unbind",
+    "stmt_reevaluated_by_other_invocation",
 ]
 SHRINK_LISTS = [["ops"], ["spec", "writers"], ["spec", "writers", "*", "ops"]]
 
@@ -171,12 +192,25 @@ def _gen_set(rng: random.Random, ent: str, captured: list[int], xattrs=()) -> di
 
 
 def _gen_wop(rng: random.Random, ents: list[str], hot: str | None, svc: list[str], shadow_names: list[str],
-             captured: list[int], shadow_del: bool = True, xattrs=(), mut: bool = False) -> dict:
-    """One writer operation (without timing). ``captured``: slots that hold a snapshot so far (updated)."""
+             captured: list[int], shadow_del: bool = True, xattrs=(), mut: bool = False, dyn_names=()) -> dict:
+    """One writer operation (without timing). ``captured``: slots that hold a snapshot so far (updated).
+
+    ``dyn_names``: those of ``shadow_names`` whose Python variable is bound / deleted while the writers run."""
     rattrs = ATTRS + ATTRS + VIRTUAL + list(xattrs) * 2  # attribute names for reads
     roll = rng.random()
-    if shadow_names and roll < 0.12:
+    if shadow_names and roll < (0.6 if dyn_names else 0.12):
         ent = rng.choice(shadow_names)
+        if ent in dyn_names:
+            roll2 = rng.random()
+            if roll2 < 0.18:
+                return {"k": "bind", "e": ent, "v": _gen_val(rng)}
+            if roll2 < 0.34:
+                return {"k": "unbind", "e": ent}
+            if roll2 < 0.48 and ent not in svc:
+                # `NAME.x.attr` by dotted name: the state attribute, or plain Python on the variable's attribute
+                if rng.random() < 0.5:
+                    return {"k": "read_attr", "e": ent, "attr": rng.choice(rattrs)}
+                return {"k": "attr_assign", "e": ent, "attr": _pick_attr(rng, xattrs), "v": _gen_val(rng)}
         kind = rng.choice(["read", "read", "read", "assign", "assign", "del" if shadow_del else "read"])
         op = {"k": kind, "e": ent}
         if kind == "assign":
@@ -280,6 +314,8 @@ def gen(rng: random.Random, tier: str) -> dict:
         xattrs += rng.sample(SETPARAM_ATTRS, rng.choice([1, 2]))
     # in-place mutation of attribute values that were read (steer coin, same reason)
     mut = rng.random() < 0.25
+    # bindings that change while the writers run + the writers' statements evaluated several times (loop)
+    dyn = rng.random() < 0.3
     initial = {}
     for ent in ents:
         if rng.random() < 0.6:
@@ -302,19 +338,35 @@ def gen(rng: random.Random, tier: str) -> dict:
     share = max(2, (total - n_ext) // n_w)
     for wi in range(n_w):
         lshadow = rng.random() < 0.3
-        shadow_names = ([G_ENT] if gshadow else []) + ([L_ENT] if lshadow else [])
+        ldyn = dyn and rng.random() < 0.5
+        rounds = rng.choice([1, 2, 2, 2, 3]) if dyn else 1
+        dyn_names = ([G_ENT] if dyn else []) + ([L_ENT] if ldyn else [])
+        shadow_names = ([G_ENT] if gshadow or dyn else []) + ([L_ENT] if lshadow or ldyn else [])
         wops = []
         captured: list[int] = []
-        for _ in range(rng.randint(max(2, share // 2), share)):
+        n_ops = rng.randint(max(2, share // 2), share)
+        if rounds > 1:
+            n_ops = max(4, (n_ops * 3) // (2 * rounds))  # the loop multiplies them
+        for _ in range(n_ops):
             op = gen_delay(rng, burst_p=burst_p, max_steps=4)
-            op.update(_gen_wop(rng, ents, hot, svc, shadow_names, captured, shadow_del, xattrs, mut))
+            op.update(_gen_wop(rng, ents, hot, svc, shadow_names, captured, shadow_del, xattrs, mut, dyn_names))
             wops.append(op)
-        writers.append({"name": f"w{wi}", "lshadow": lshadow, "ops": wops})
+        wr = {"name": f"w{wi}", "lshadow": lshadow, "ops": wops}
+        if dyn:
+            wr.update({"ldyn": ldyn, "rounds": rounds})
+        writers.append(wr)
     ops = []
     for wr in writers:
         op = gen_delay(rng, burst_p=0.5, max_steps=3)
         op.update({"kind": "start", "w": wr["name"]})
         ops.append(op)
+    if dyn and rng.random() < 0.4:
+        # the same function runs a second time, possibly while its first invocation is still running: the same
+        # statements are evaluated by two tasks, each with its own local variables
+        op = gen_delay(rng, burst_p=0.3, max_steps=6)
+        op.update({"kind": "start", "w": rng.choice(writers)["name"], "inv": 1})
+        first = next(i for i, o in enumerate(ops) if o["w"] == op["w"])
+        ops.insert(rng.randint(first + 1, len(ops)), op)
     for _ in range(n_ext):
         op = gen_delay(rng, burst_p=0.2, max_steps=6)
         roll = rng.random()
@@ -329,7 +381,7 @@ def gen(rng: random.Random, tier: str) -> dict:
     return {
         "cfg": cfg,
         "spec": {"ents": ents, "svc": svc, "gshadow": gshadow, "trig": rng.random() < 0.4, "writers": writers,
-                 "xattrs": xattrs, "mut": mut},
+                 "xattrs": xattrs, "mut": mut, "gdyn": dyn},
         "ops": ops,
     }
 
@@ -400,6 +452,14 @@ def _op_src(op: dict) -> list[str]:
         return [f"r = state.getattr({op['e']!r})"]
     if k == "svc_call":
         return [f"r = {op['e']}(tag={op.get('tag', 0)!r})"]
+    if k == "bind":
+        if op["e"] == G_ENT:
+            return [f"gbind({op['v']!r})", "r = None"]
+        return [f"{L_DOM} = SimpleNamespace({L_ATTR}={op['v']!r})", "r = None"]
+    if k == "unbind":
+        if op["e"] == G_ENT:
+            return ["gunbind()", "r = None"]
+        return [f"del {L_DOM}", "r = None"]
     raise HarnessError(f"unknown op kind {k}")
 
 
@@ -408,30 +468,40 @@ def render(scn: dict) -> dict:
     lines = ["from types import SimpleNamespace", ""]
     if spec["gshadow"]:
         lines += [f"{G_DOM} = SimpleNamespace({G_ATTR}={G_INIT!r})", ""]
+    if spec.get("gdyn"):
+        # any writer (another task) can bind, re-bind and delete the global variable named like the state domain
+        lines += ["def gbind(v):", f"    global {G_DOM}", f"    {G_DOM} = SimpleNamespace({G_ATTR}=v)", "",
+                  "def gunbind():", f"    global {G_DOM}", f"    del {G_DOM}", ""]
     if spec.get("trig"):
         # a state trigger on the busiest names switches on pyscript's notify bookkeeping inside state.set/delete
         lines += [f"@state_trigger({spec['ents'][0]!r}, {spec['ents'][1] + '.a0'!r})", "def trig(**kw):", "    pass", ""]
     for wr in spec["writers"]:
         name = wr["name"]
-        lines += ["@service", f"def {name}():", "    P = sim.get('pre')"]
+        inv = ", inv" if "rounds" in wr else ""  # which invocation of the function this is (given by the caller)
+        lines += ["@service", f"def {name}({'inv=0' if inv else ''}):", "    P = sim.get('pre')"]
         for slot in range(N_SLOTS):
             lines.append(f"    s{slot} = None")
         if wr["lshadow"]:
             lines.append(f"    {L_DOM} = SimpleNamespace({L_ATTR}={L_INIT!r})")
-        lines.append(f"    sim.mark('begin', {name!r})")
+        lines.append(f"    sim.mark('begin', {name!r}{inv})")
+        ind, rnd = "    ", ""
+        if "rounds" in wr:
+            # the same statements are evaluated `rounds` times
+            lines.append(f"    for rnd in range({wr['rounds']}):")
+            ind, rnd = "        ", ", rnd"
         for oi, op in enumerate(wr["ops"]):
             if op.get("dt", 0.0) > 0.0:
-                lines.append(f"    task.sleep({op['dt']!r})")
+                lines.append(f"{ind}task.sleep({op['dt']!r})")
             elif op.get("passes", 0) > 0:
-                lines += ["    task.sleep(0)"] * op["passes"]
-            lines.append(f"    P({name!r}, {oi})")
-            lines.append("    try:")
+                lines += [f"{ind}task.sleep(0)"] * op["passes"]
+            lines.append(f"{ind}P({name!r}, {oi}{rnd}{inv})")
+            lines.append(f"{ind}try:")
             src = _op_src(dict(op, tag=f"{name}:{oi}"))
-            lines += ["        " + s for s in src]
-            lines.append(f"        sim.mark('op', {name!r}, {oi}, 'ok', r)")
-            lines.append("    except Exception as exc:")
-            lines.append(f"        sim.mark('op', {name!r}, {oi}, 'exc', exc)")
-        lines.append(f"    sim.mark('done', {name!r})")
+            lines += [ind + "    " + s for s in src]
+            lines.append(f"{ind}    sim.mark('op', {name!r}, {oi}, 'ok', r{rnd}{inv})")
+            lines.append(f"{ind}except Exception as exc:")
+            lines.append(f"{ind}    sim.mark('op', {name!r}, {oi}, 'exc', exc{rnd}{inv})")
+        lines.append(f"    sim.mark('done', {name!r}{inv})")
         lines.append("")
     return {"pyscript/c16.py": "\n".join(lines) + "\n"}
 
@@ -483,6 +553,18 @@ def simplify(scn: dict):
         cand = copy.deepcopy(scn)
         cand["spec"]["gshadow"] = False
         yield cand
+    # fewer rounds of a writer's loop; a second invocation turned into the first
+    for wi, wr in enumerate(scn["spec"]["writers"]):
+        if wr.get("rounds", 1) > 1:
+            cand = copy.deepcopy(scn)
+            cand["spec"]["writers"][wi]["rounds"] -= 1
+            yield cand
+    for i, op in enumerate(scn["ops"]):
+        if op["kind"] == "start" and op.get("inv") and not any(
+                o["kind"] == "start" and o["w"] == op["w"] and not o.get("inv") for o in scn["ops"]):
+            cand = copy.deepcopy(scn)
+            cand["ops"][i].pop("inv")
+            yield cand
     if scn["spec"].get("trig"):
         cand = copy.deepcopy(scn)
         cand["spec"]["trig"] = False
@@ -616,17 +698,20 @@ class C16World(World):
         try:
             if args and args[0] == "op":
                 self.steps.append({
-                    "k": "op", "w": args[1], "i": args[2], "st": args[3], "res": self.inspect(args[4]),
+                    "k": "op", "w": args[1], "i": args[2], "r": args[5] if len(args) > 5 else 0,
+                    "inv": args[6] if len(args) > 6 else 0, "st": args[3],
+                    "res": self.inspect(args[4]),
                     "now": self.now(), "iter": self.loop.iterations, "photo": self.photo(),
                     "names": sorted(self.hass.states.async_entity_ids()), "t": self.vts(),
                 })
             elif args and args[0] in ("begin", "done"):
-                self.steps.append({"k": args[0], "w": args[1], "t": self.vts(), "iter": self.loop.iterations})
+                self.steps.append({"k": args[0], "w": args[1], "inv": args[2] if len(args) > 2 else 0, "t": self.vts(),
+                                   "iter": self.loop.iterations})
         except Exception:  # pylint: disable=broad-except
             self.hook_errors.append(traceback.format_exc())
 
-    def pre(self, wname, oi) -> None:
-        self.pre_iter[(wname, oi)] = self.loop.iterations
+    def pre(self, wname, oi, rnd=0, inv=0) -> None:
+        self.pre_iter[(wname, oi, rnd, inv)] = self.loop.iterations
 
     def record_ext(self, op: dict) -> None:
         self.steps.append({"k": "ext", "op": op, "now": self.now(), "iter": self.loop.iterations,
@@ -645,7 +730,8 @@ def run(scn: dict) -> dict:
     # script that changes such a value in place must not change the scenario
     w = C16World(copy.deepcopy(scn["cfg"]), render(scn))
     w.attr_names = list(ATTRS) + [a for a in spec.get("xattrs", []) if a not in VIRTUAL]
-    horizon = 1.0 + max([sum(op.get("dt", 0.0) for op in wr["ops"]) for wr in spec["writers"]] + [0.0])
+    horizon = 1.0 + max([wr.get("rounds", 1) * sum(op.get("dt", 0.0) for op in wr["ops"])
+                         for wr in spec["writers"]] + [0.0])
 
     async def driver(w: C16World):
         from homeassistant.core import callback
@@ -663,7 +749,7 @@ def run(scn: dict) -> dict:
             await wait_op(w, op)
             kind = op["kind"]
             if kind == "start":
-                await w.call_service("pyscript", op["w"], {}, blocking=False)
+                await w.call_service("pyscript", op["w"], {"inv": op["inv"]} if "inv" in op else {}, blocking=False)
             elif kind == "set":
                 w.set_state(op["e"], op["s"], copy.deepcopy(op.get("a") or {}))
                 w.record_ext(op)
@@ -742,26 +828,38 @@ def _set_combo(op: dict) -> str:
 def oracle(w: C16World, scn: dict):  # noqa: C901  pylint: disable=too-many-branches,too-many-statements,too-many-locals
     spec = scn["spec"]
     writers = {wr["name"]: wr for wr in spec["writers"]}
-    started = [op["w"] for op in scn["ops"] if op["kind"] == "start"]
+    started = [(op["w"], op.get("inv", 0)) for op in scn["ops"] if op["kind"] == "start"]
+
+    def wkey_of(name, inv):
+        return name if inv == 0 else f"{name}#{inv}"
     violations: list[dict] = []
 
     def viol(cls, sig, detail, t):
         violations.append({"class": f"C16.{cls}", "sig": sig, "detail": detail, "t": t})
 
     # ---- every started writer ran to its end, every operation reported exactly once
-    done = {st["w"] for st in w.steps if st["k"] == "done"}
-    for name in started:
-        if name not in done:
-            raise HarnessError(f"writer {name} did not finish (begin/done steps: "
-                               f"{[(s['k'], s['w']) for s in w.steps if s['k'] in ('begin', 'done')]})")
-    seen_ops = [(st["w"], st["i"]) for st in w.steps if st["k"] == "op"]
-    want_ops = sorted((name, oi) for name in set(started) for oi in range(len(writers[name]["ops"])))
+    done = {(st["w"], st["inv"]) for st in w.steps if st["k"] == "done"}
+    for inst in started:
+        if inst not in done:
+            raise HarnessError(f"writer {inst} did not finish (begin/done steps: "
+                               f"{[(s['k'], s['w'], s['inv']) for s in w.steps if s['k'] in ('begin', 'done')]})")
+    seen_ops = [(st["w"], st["inv"], st["i"], st["r"]) for st in w.steps if st["k"] == "op"]
+    want_ops = sorted((name, inv, oi, rnd) for name, inv in set(started) for oi in range(len(writers[name]["ops"]))
+                      for rnd in range(writers[name].get("rounds", 1)))
     if sorted(seen_ops) != want_ops:
         raise HarnessError(f"operations reported {sorted(seen_ops)} != generated {want_ops}")
 
     model: dict = {}
-    gobj = {G_ATTR: G_INIT} if spec["gshadow"] else None
-    lobj = {name: ({L_ATTR: L_INIT} if wr["lshadow"] else None) for name, wr in writers.items()}
+    # the Python variables named like a state domain: "obj" = attributes of the object bound at the moment (None = not
+    # bound), "ser" = serial number of that binding, "by" = the writer that made / removed it
+    gbind = {"obj": {G_ATTR: G_INIT} if spec["gshadow"] else None, "ser": 0, "by": None}
+    lbind = {wkey_of(name, inv): {"obj": {L_ATTR: L_INIT} if writers[name]["lshadow"] else None, "ser": 0,
+                                  "by": wkey_of(name, inv)} for name, inv in started}
+    # is `switch` a local name of the writer's function (assigned or deleted somewhere in its body)?
+    l_is_local = {name: wr["lshadow"] or any(op["k"] in ("bind", "unbind") and op.get("e") == L_ENT for op in wr["ops"])
+                  for name, wr in writers.items()}
+    node_seen: dict = {}  # (writer, op index) -> identity of the binding (None = unbound) at its previous evaluation
+    node_last_inv: dict = {}  # (writer, op index) -> the invocation that evaluated the statement last
     slots: dict = {}  # (writer, slot) -> {"insp":…, "ent":…, "entry": model entry at capture}
     deleted: set = set()
     last_write: dict = {}  # ent -> (actor, iter)
@@ -827,24 +925,25 @@ def oracle(w: C16World, scn: dict):  # noqa: C901  pylint: disable=too-many-bran
             continue
 
         # ---------------------------------------------------------------- a script operation
-        wname, oi = step["w"], step["i"]
+        wname, oi, rnd = step["w"], step["i"], step["r"]
+        wkey = wkey_of(wname, step["inv"])  # the invocation: owner of the local variables and captured snapshots
         wr = writers[wname]
         op = wr["ops"][oi]
         k = op["k"]
         st, res = step["st"], step["res"]
         t = step["t"]
         stats["ops"] += 1
-        if k != "svc_call" and w.pre_iter.get((wname, oi)) != step["iter"]:
-            raise HarnessError(f"operation {wname}:{oi} {k} was not atomic: pre-marker in pass "
-                               f"{w.pre_iter.get((wname, oi))}, mark in pass {step['iter']}")
+        if k != "svc_call" and w.pre_iter.get((wname, oi, rnd, step["inv"])) != step["iter"]:
+            raise HarnessError(f"operation {wkey}:{oi} (round {rnd}) {k} was not atomic: pre-marker in pass "
+                               f"{w.pre_iter.get((wname, oi, rnd, step['inv']))}, mark in pass {step['iter']}")
         src = "; ".join(_op_src(dict(op, tag=f"{wname}:{oi}"))[:2])
-        desc = f"{wname}:{oi} `{src}`"
-        if last_actor is not None and last_actor != wname and last_actor != "ext":
+        desc = f"{wkey}:{oi} `{src}`" + (f" (round {rnd + 1} of the loop)" if "rounds" in wr else "")
+        if last_actor is not None and last_actor != wkey and last_actor != "ext":
             prev_iter = stats.get("last_iter")
             if prev_iter == step["iter"]:
                 w.probe("same_pass_two_writers")
         stats["last_iter"] = step["iter"]
-        last_actor = wname
+        last_actor = wkey
         exc_type = res.get("type") if st == "exc" else None
         got_txt = f"raised {exc_type}: {res.get('msg')}" if st == "exc" else f"returned {_res_txt(res)}"
 
@@ -856,26 +955,90 @@ def oracle(w: C16World, scn: dict):  # noqa: C901  pylint: disable=too-many-bran
         else:
             attr = op.get("attr")
         cur = model.get(ent) if ent else None
-        shadow = None
-        if k in ("read", "assign", "del") and op.get("via", "stmt") == "stmt":
-            if ent == G_ENT and gobj is not None:
-                shadow = ("global", gobj, G_ATTR)
-            elif ent == L_ENT and lobj[wname] is not None:
-                shadow = ("local", lobj[wname], L_ATTR)
+        brec = gbind if ent == G_ENT else lbind[wkey] if ent == L_ENT else None
+        bwhich, battr = ("global", G_ATTR) if ent == G_ENT else ("local", L_ATTR)
 
-        def classify_none(ent_, diff, exp, got, _k=k, _desc=desc):
+        # ------------------------------------------------------------ the variable is bound / deleted
+        if k in ("bind", "unbind"):
+            sig = {"op": k, "shadow": bwhich}
+            was_bound = brec["obj"] is not None
+            if k == "bind" or was_bound:
+                if st != "ok":
+                    # plain Python on a plain variable; what it holds now is not judged
+                    viol("precedence", sig, f"{desc}: {'binding' if k == 'bind' else 'deleting'} the {bwhich} Python "
+                         f"variable {got_txt}", t)
+                    brec["obj"] = {battr: _TAINT}
+                else:
+                    brec["obj"] = {battr: copy.deepcopy(op["v"])} if k == "bind" else None
+                brec["ser"] += 1
+                brec["by"] = wkey
+            # deleting a variable that is not bound: may raise or not; nothing changes
+
+            def classify_bind(ent_, diff, exp, got, _sig=sig):
+                return ("precedence", dict(_sig, effect="state_machine_changed"))
+
+            check_photo(step, desc, classify_bind)
+            continue
+
+        shadow = None
+        node_ctx = None  # what happened to the binding since this very statement was evaluated last
+        by_dotted_name = brec is not None and (
+            (k in ("read", "assign", "del") and op.get("via", "stmt") == "stmt") or k in ("read_attr", "attr_assign"))
+        if by_dotted_name:
+            bound = brec["obj"] is not None
+            if bound:
+                shadow = (bwhich, brec["obj"], battr)
+            ser_now = (bwhich if bwhich == "global" else wkey, brec["ser"]) if bound else None
+            if (wname, oi) in node_seen:
+                ser_prev = node_seen[(wname, oi)]
+                if ser_prev is None and ser_now is not None:
+                    node_ctx = "reevaluated_after_bind"
+                elif ser_prev is not None and ser_now is None:
+                    node_ctx = "reevaluated_after_unbind"
+                elif ser_prev != ser_now:
+                    node_ctx = "reevaluated_after_rebind"
+                else:
+                    node_ctx = "reevaluated_same_binding"
+                w.probe("stmt_" + node_ctx)
+                if node_ctx != "reevaluated_same_binding" and bwhich == "global" and brec["by"] != wkey:
+                    w.probe("global_binding_changed_by_other_task")
+                if bwhich == "local" and node_last_inv.get((wname, oi)) != wkey:
+                    w.probe("stmt_reevaluated_by_other_invocation")
+            node_last_inv[(wname, oi)] = wkey
+            node_seen[(wname, oi)] = ser_now
+            if not bound and brec["ser"] > 0 and cur is not None:
+                w.probe("state_name_after_unbind")
+        nsig = {"stmt": node_ctx} if node_ctx not in (None, "reevaluated_same_binding") else {}
+
+        def classify_none(ent_, diff, exp, got, _k=k, _desc=desc, _nsig=nsig):
             # an operation that must not touch the state machine did
-            return ("unexpected_write", {"op": _k, "fields": "+".join(diff)})
+            return ("unexpected_write", dict({"op": _k, "fields": "+".join(diff)}, **_nsig))
 
         classify = classify_none
+
+        # ------------------------------------------------------------ a local name that is not bound at the moment
+        if by_dotted_name and shadow is None and bwhich == "local" and l_is_local[wname] and st == "exc" and \
+                exc_type in ("NameError", "UnboundLocalError"):
+            # Python raises for it, pyscript's documentation is silent: accepted, but then without any effect
+            check_photo(step, desc, classify)
+            continue
 
         # ------------------------------------------------------------ shadowing Python variables
         if shadow is not None:
             which, obj, oattr = shadow
             if cur is not None:
                 w.probe("local_shadows_state" if which == "local" else "global_shadows_state")
-            sig = {"op": k, "shadow": which}
-            if k == "read":
+            sig = dict({"op": k, "shadow": which}, **nsig)
+            if k in ("read_attr", "attr_assign"):
+                # plain Python on the value of the variable's attribute (str/int/float/bool/None/list/dict, or the
+                # attribute is gone): there is no such attribute to read, and none can be set
+                if oattr in obj and obj[oattr] is _TAINT:
+                    pass
+                elif st != "exc" or exc_type != "AttributeError":
+                    viol("precedence", sig, f"{desc}: `{ent.split('.')[0]}` is a {which} Python variable whose "
+                         f"attribute {oattr} is {obj.get(oattr, '<deleted>')!r}; expected AttributeError (plain Python), "
+                         f"but the operation {got_txt}", t)
+            elif k == "read":
                 if oattr in obj and obj[oattr] is _TAINT:
                     pass
                 elif oattr in obj:
@@ -914,7 +1077,7 @@ def oracle(w: C16World, scn: dict):  # noqa: C901  pylint: disable=too-many-bran
         if is_coll and k in ("read", "svc_call"):
             if cur is not None:
                 w.probe("service_name_shadows_state")
-            sig = {"op": k, "shadow": "service"}
+            sig = dict({"op": k, "shadow": "service"}, **nsig)
             if k == "read":
                 if st != "ok" or res["t"] != "callable":
                     viol("precedence", sig, f"{desc}: a service {ent} exists, the name must resolve to the service, "
@@ -942,7 +1105,7 @@ def oracle(w: C16World, scn: dict):  # noqa: C901  pylint: disable=too-many-bran
                 w.probe("missing_attr_read")
             else:
                 case, exp_exc = ("attr" if want_attr else "entity"), None
-            sig = {"op": "read", "via": via, "case": case}
+            sig = dict({"op": "read", "via": via, "case": case}, **nsig)
             if cur is None and ent in deleted:
                 w.probe("delete_then_read")
             if exp_exc is not None:
@@ -977,9 +1140,9 @@ def oracle(w: C16World, scn: dict):  # noqa: C901  pylint: disable=too-many-bran
                         viol("read_value", sig, f"{desc}: attribute is {cur['a'][want_attr]!r}, the read {got_txt}", t)
             if k == "cap":
                 if st == "ok" and res["t"] == "SV":
-                    slots[(wname, op["slot"])] = {"insp": res, "ent": ent, "entry": copy.deepcopy(cur), "alias": {}}
+                    slots[(wkey, op["slot"])] = {"insp": res, "ent": ent, "entry": copy.deepcopy(cur), "alias": {}}
                 else:
-                    slots.pop((wname, op["slot"]), None)
+                    slots.pop((wkey, op["slot"]), None)
             if k == "mut" and exp_exc is None and st == "ok" and isinstance(cur["a"][want_attr], (list, dict)):
                 # the script changed, in place, the value it had read: that is its own object; neither the state
                 # machine nor snapshots captured earlier may change
@@ -1009,7 +1172,7 @@ def oracle(w: C16World, scn: dict):  # noqa: C901  pylint: disable=too-many-bran
 
         # ------------------------------------------------------------ captured snapshots
         if k in ("insp", "insp_attr"):
-            held = slots.get((wname, op["slot"]))
+            held = slots.get((wkey, op["slot"]))
             if held is not None:
                 live = model.get(held["ent"])
                 if entry_diff(held["entry"], live):
@@ -1080,7 +1243,7 @@ def oracle(w: C16World, scn: dict):  # noqa: C901  pylint: disable=too-many-bran
             continue
         if k == "getattr":
             if "slot" in op:
-                held = slots.get((wname, op["slot"]))
+                held = slots.get((wkey, op["slot"]))
                 if held is not None:
                     exp_v = held["insp"]["a"]
                     # whether a snapshot still knows real attributes named like the virtual fields is open
@@ -1120,7 +1283,7 @@ def oracle(w: C16World, scn: dict):  # noqa: C901  pylint: disable=too-many-bran
             else:
                 vspec, na, kw = op["val"], op["na"], op["kw"]
             primary_kw = kw
-            held = slots.get((wname, vspec["slot"])) if "slot" in vspec else None
+            held = slots.get((wkey, vspec["slot"])) if "slot" in vspec else None
             if "slot" in vspec and held is not None:
                 w.probe("stateval_as_value")
                 values = [held["insp"]["s"]]
@@ -1182,11 +1345,11 @@ def oracle(w: C16World, scn: dict):  # noqa: C901  pylint: disable=too-many-bran
         combo = _set_combo(op) if k == "set" else None
         opname = {"assign": "assign", "set": "state.set", "attr_assign": "attr_assign", "setattr": "state.setattr",
                   "del": "del" if op.get("via") == "stmt" else "state.delete"}[k]
-        sig = {"op": opname}
+        sig = dict({"op": opname}, **nsig)
         if combo:
             sig["args"] = combo
         if k == "assign":
-            sig["value"] = "snapshot" if "slot" in op and slots.get((wname, op["slot"])) else (
+            sig["value"] = "snapshot" if "slot" in op and slots.get((wkey, op["slot"])) else (
                 "None" if op.get("v") is None else type(op["v"]).__name__)
         if k == "del":
             sig["what"] = "attr" if attr else "entity"
@@ -1284,9 +1447,9 @@ def oracle(w: C16World, scn: dict):  # noqa: C901  pylint: disable=too-many-bran
 
         check_photo(step, desc, classify_write)
         prev = last_write.get(ent)
-        if prev and prev[0] != wname and step["iter"] - prev[1] <= 6:
+        if prev and prev[0] != wkey and step["iter"] - prev[1] <= 6:
             w.probe("two_writers_one_entity")
-        last_write[ent] = (wname, step["iter"])
+        last_write[ent] = (wkey, step["iter"])
 
     # ---- service calls that were accepted must have reached the service
     got_tags = [(c.get("_svc"), c.get("tag")) for c in w.svc_calls]
